@@ -6,7 +6,7 @@ ID=$1; P=$2; shift 2
 D=/var/tmp/seedtrial/$ID.$P
 rm -rf $D; mkdir -p $D/repo
 cp -r /repo/Cargo.toml /repo/Cargo.lock /repo/src $D/repo/
-PD=/verif/seeded/$ID; [ -d $PD ] || PD=/verif/selftest/$ID; (cd $D/repo && patch -p1 -s < $PD/patch.diff) || { echo "patch failed"; exit 3; }
+PD=/verif/seeded/$ID; [ -d $PD ] || PD=/verif/seeded/superseded/$ID; [ -d $PD ] || PD=/verif/selftest/$ID; (cd $D/repo && patch -p1 -s < $PD/patch.diff) || { echo "patch failed"; exit 3; }
 VERIF_REPO=$D/repo VERIF_EVIDENCE_DIR=$D /verif/check $P --no-replay "$@" > $D/out.txt 2>&1; RC=$?
 rm -rf $D/repo
 echo "seed=$ID property=$P exit=$RC"
